@@ -5,4 +5,15 @@ T = "x/cctp/types/"
 MUTANTS = [
     ("c07-replace-fresh-nonce", "C07", K + "msg_server_replace_message.go",
      "\t\toriginalMessage.Nonce,\n", "\t\tk.ReserveAndIncrementNonce(ctx).Nonce,\n"),
+    ("c02-mark-only-module", "C02", K + "msg_server_receive_message.go",
+     "\tk.SetUsedNonce(ctx, usedNonce)\n\n\t// verify and parse BurnMessage\n\tif bytes.Equal(message.Recipient, types.PaddedModuleAddress) { // then mint\n",
+     "\t// verify and parse BurnMessage\n\tif bytes.Equal(message.Recipient, types.PaddedModuleAddress) { // then mint\n\t\tk.SetUsedNonce(ctx, usedNonce)\n"),
+    ("c03-caller-only-module", "C03", K + "msg_server_receive_message.go",
+     "if !bytes.Equal(message.DestinationCaller, zeroByteArray) {",
+     "if !bytes.Equal(message.DestinationCaller, zeroByteArray) && bytes.Equal(message.Recipient, types.PaddedModuleAddress) {"),
+    ("c03-pause-ignored-long", "C03", K + "msg_server_receive_message.go",
+     "if found && sendingReceivingPaused.Paused {", "if found && sendingReceivingPaused.Paused && len(msg.Message) < 300 {"),
+    ("c08-gt-gte", "C08", K + "msg_server_deposit_for_burn.go", "amount.GT(perMessageBurnLimit.Amount)", "amount.GTE(perMessageBurnLimit.Amount)"),
+    ("c08-body-ge", "C08", K + "msg_server_send_message.go", "uint64(len(messageBody)) > max.Amount", "uint64(len(messageBody)) >= max.Amount"),
+    ("c08-limit-unlowered", "C08", K + "msg_server_deposit_for_burn.go", "k.GetPerMessageBurnLimit(ctx, strings.ToLower(burnToken))", "k.GetPerMessageBurnLimit(ctx, burnToken)"),
 ]
